@@ -254,6 +254,11 @@ func run(c *hx.Ctx) error {
 		return replay(c)
 	}
 
+	if os.Getenv("C03_ONLY") == "matrix" { // debugging aid: the assignability matrix alone
+		runMatrix(c)
+		return nil
+	}
+
 	// 0. recorded findings: replay the exact minimal programs on the real code
 	for _, f := range c.Findings {
 		src := findingSrc(f.Minimal)
@@ -452,6 +457,7 @@ func run(c *hx.Ctx) error {
 		}
 		compareModel(c, tc)
 	}
+	runMatrix(c)
 	return nil
 }
 
